@@ -185,105 +185,75 @@ package document
 //@ loop 4
 //@   invariant unchangedHeap() && closedAbove(B)
 //@ loop 5
-//@   invariant unchangedExcept("Table.Rows", "TableRow.*", "Paragraph.Runs")
-//@   invariant unchangedBelow(B)
+//@   invariant unchangedExcept("Table.Rows", "TableRow.*", "Paragraph.Runs") && unchangedBelow(B)
 //@   invariant closedRows(B)
 //@   invariant closedCells(B)
 //@   invariant closedTables(B)
 //@   invariant table != nil && above(table, B) && above(newRows, B) && tagged(newRows, "TableRow")
-//@   invariant forall t *Table :: !isElem(t) && t != table ==> t.Rows == old(t.Rows)
-//@   invariant forall r *TableRow :: !isElem(r) && allocated(r) ==> r.Cells == old(r.Cells)
-//@   invariant forall p *Paragraph :: !isElem(p) && allocated(p) ==> p.Runs == old(p.Runs)
+//@   invariant (forall t *Table :: !isElem(t) && t != table ==> t.Rows == old(t.Rows)) && (forall r *TableRow :: !isElem(r) && allocated(r) ==> r.Cells == old(r.Cells)) && (forall p *Paragraph :: !isElem(p) && allocated(p) ==> p.Runs == old(p.Runs))
 //@ loop 6
-//@   invariant unchangedExcept("Table.Rows", "TableRow.*", "Paragraph.Runs")
-//@   invariant unchangedBelow(B)
+//@   invariant unchangedExcept("Table.Rows", "TableRow.*", "Paragraph.Runs") && unchangedBelow(B)
 //@   invariant closedRows(B)
 //@   invariant closedCells(B)
 //@   invariant closedTables(B)
 //@   invariant table != nil && above(table, B) && above(newRows, B) && tagged(newRows, "TableRow")
-//@   invariant forall t *Table :: !isElem(t) && t != table ==> t.Rows == old(t.Rows)
-//@   invariant forall r *TableRow :: !isElem(r) && allocated(r) ==> r.Cells == old(r.Cells)
-//@   invariant forall p *Paragraph :: !isElem(p) && allocated(p) ==> p.Runs == old(p.Runs)
+//@   invariant (forall t *Table :: !isElem(t) && t != table ==> t.Rows == old(t.Rows)) && (forall r *TableRow :: !isElem(r) && allocated(r) ==> r.Cells == old(r.Cells)) && (forall p *Paragraph :: !isElem(p) && allocated(p) ==> p.Runs == old(p.Runs))
 //@ loop 14
-//@   invariant unchangedExcept("Table.Rows", "TableRow.*", "Paragraph.Runs")
-//@   invariant unchangedBelow(B)
+//@   invariant unchangedExcept("Table.Rows", "TableRow.*", "Paragraph.Runs") && unchangedBelow(B)
 //@   invariant closedRows(B)
 //@   invariant closedCells(B)
 //@   invariant closedTables(B)
 //@   invariant table != nil && above(table, B) && above(newRows, B) && tagged(newRows, "TableRow")
-//@   invariant forall t *Table :: !isElem(t) && t != table ==> t.Rows == old(t.Rows)
-//@   invariant forall r *TableRow :: !isElem(r) && allocated(r) ==> r.Cells == old(r.Cells)
-//@   invariant forall p *Paragraph :: !isElem(p) && allocated(p) ==> p.Runs == old(p.Runs)
+//@   invariant (forall t *Table :: !isElem(t) && t != table ==> t.Rows == old(t.Rows)) && (forall r *TableRow :: !isElem(r) && allocated(r) ==> r.Cells == old(r.Cells)) && (forall p *Paragraph :: !isElem(p) && allocated(p) ==> p.Runs == old(p.Runs))
 //@ loop 7
-//@   invariant unchangedExcept("Table.Rows", "TableRow.*", "Paragraph.Runs")
-//@   invariant unchangedBelow(B)
+//@   invariant unchangedExcept("Table.Rows", "TableRow.*", "Paragraph.Runs") && unchangedBelow(B)
 //@   invariant closedRows(B)
 //@   invariant closedCells(B)
 //@   invariant closedTables(B)
 //@   invariant table != nil && above(table, B) && above(newRows, B) && tagged(newRows, "TableRow") && newRow != nil && above(newRow, B) && above(newRow.Cells, B) && tagged(newRow.Cells, "TableCell")
-//@   invariant forall t *Table :: !isElem(t) && t != table ==> t.Rows == old(t.Rows)
-//@   invariant forall r *TableRow :: !isElem(r) && allocated(r) ==> r.Cells == old(r.Cells)
-//@   invariant forall p *Paragraph :: !isElem(p) && allocated(p) ==> p.Runs == old(p.Runs)
+//@   invariant (forall t *Table :: !isElem(t) && t != table ==> t.Rows == old(t.Rows)) && (forall r *TableRow :: !isElem(r) && allocated(r) ==> r.Cells == old(r.Cells)) && (forall p *Paragraph :: !isElem(p) && allocated(p) ==> p.Runs == old(p.Runs))
 //@ loop 8
-//@   invariant unchangedExcept("Table.Rows", "TableRow.*", "Paragraph.Runs")
-//@   invariant unchangedBelow(B)
+//@   invariant unchangedExcept("Table.Rows", "TableRow.*", "Paragraph.Runs") && unchangedBelow(B)
 //@   invariant closedRows(B)
 //@   invariant closedCells(B)
 //@   invariant closedTables(B)
 //@   invariant table != nil && above(table, B) && above(newRows, B) && tagged(newRows, "TableRow") && newRow != nil && above(newRow, B) && above(newRow.Cells, B) && tagged(newRow.Cells, "TableCell")
-//@   invariant forall t *Table :: !isElem(t) && t != table ==> t.Rows == old(t.Rows)
-//@   invariant forall r *TableRow :: !isElem(r) && allocated(r) ==> r.Cells == old(r.Cells)
-//@   invariant forall p *Paragraph :: !isElem(p) && allocated(p) ==> p.Runs == old(p.Runs)
+//@   invariant (forall t *Table :: !isElem(t) && t != table ==> t.Rows == old(t.Rows)) && (forall r *TableRow :: !isElem(r) && allocated(r) ==> r.Cells == old(r.Cells)) && (forall p *Paragraph :: !isElem(p) && allocated(p) ==> p.Runs == old(p.Runs))
 //@ loop 9
-//@   invariant unchangedExcept("Table.Rows", "TableRow.*", "Paragraph.Runs")
-//@   invariant unchangedBelow(B)
+//@   invariant unchangedExcept("Table.Rows", "TableRow.*", "Paragraph.Runs") && unchangedBelow(B)
 //@   invariant closedRows(B)
 //@   invariant closedCells(B)
 //@   invariant closedTables(B)
 //@   invariant table != nil && above(table, B) && above(newRows, B) && tagged(newRows, "TableRow") && newRow != nil && above(newRow, B) && above(newRow.Cells, B) && tagged(newRow.Cells, "TableCell")
-//@   invariant forall t *Table :: !isElem(t) && t != table ==> t.Rows == old(t.Rows)
-//@   invariant forall r *TableRow :: !isElem(r) && allocated(r) ==> r.Cells == old(r.Cells)
-//@   invariant forall p *Paragraph :: !isElem(p) && allocated(p) ==> p.Runs == old(p.Runs)
+//@   invariant (forall t *Table :: !isElem(t) && t != table ==> t.Rows == old(t.Rows)) && (forall r *TableRow :: !isElem(r) && allocated(r) ==> r.Cells == old(r.Cells)) && (forall p *Paragraph :: !isElem(p) && allocated(p) ==> p.Runs == old(p.Runs))
 //@ loop 10
-//@   invariant unchangedExcept("Table.Rows", "TableRow.*", "Paragraph.Runs")
-//@   invariant unchangedBelow(B)
+//@   invariant unchangedExcept("Table.Rows", "TableRow.*", "Paragraph.Runs") && unchangedBelow(B)
 //@   invariant closedRows(B)
 //@   invariant closedCells(B)
 //@   invariant closedTables(B)
 //@   invariant table != nil && above(table, B) && above(newRows, B) && tagged(newRows, "TableRow") && newRow != nil && above(newRow, B) && above(newRow.Cells, B) && tagged(newRow.Cells, "TableCell")
-//@   invariant forall t *Table :: !isElem(t) && t != table ==> t.Rows == old(t.Rows)
-//@   invariant forall r *TableRow :: !isElem(r) && allocated(r) ==> r.Cells == old(r.Cells)
-//@   invariant forall p *Paragraph :: !isElem(p) && allocated(p) ==> p.Runs == old(p.Runs)
+//@   invariant (forall t *Table :: !isElem(t) && t != table ==> t.Rows == old(t.Rows)) && (forall r *TableRow :: !isElem(r) && allocated(r) ==> r.Cells == old(r.Cells)) && (forall p *Paragraph :: !isElem(p) && allocated(p) ==> p.Runs == old(p.Runs))
 //@ loop 11
-//@   invariant unchangedExcept("Table.Rows", "TableRow.*", "Paragraph.Runs")
-//@   invariant unchangedBelow(B)
+//@   invariant unchangedExcept("Table.Rows", "TableRow.*", "Paragraph.Runs") && unchangedBelow(B)
 //@   invariant closedRows(B)
 //@   invariant closedCells(B)
 //@   invariant closedTables(B)
 //@   invariant table != nil && above(table, B) && above(newRows, B) && tagged(newRows, "TableRow") && newRow != nil && above(newRow, B) && above(newRow.Cells, B) && tagged(newRow.Cells, "TableCell")
-//@   invariant forall t *Table :: !isElem(t) && t != table ==> t.Rows == old(t.Rows)
-//@   invariant forall r *TableRow :: !isElem(r) && allocated(r) ==> r.Cells == old(r.Cells)
-//@   invariant forall p *Paragraph :: !isElem(p) && allocated(p) ==> p.Runs == old(p.Runs)
+//@   invariant (forall t *Table :: !isElem(t) && t != table ==> t.Rows == old(t.Rows)) && (forall r *TableRow :: !isElem(r) && allocated(r) ==> r.Cells == old(r.Cells)) && (forall p *Paragraph :: !isElem(p) && allocated(p) ==> p.Runs == old(p.Runs))
 //@ loop 12
-//@   invariant unchangedExcept("Table.Rows", "TableRow.*", "Paragraph.Runs")
-//@   invariant unchangedBelow(B)
+//@   invariant unchangedExcept("Table.Rows", "TableRow.*", "Paragraph.Runs") && unchangedBelow(B)
 //@   invariant closedRows(B)
 //@   invariant closedCells(B)
 //@   invariant closedTables(B)
 //@   invariant table != nil && above(table, B) && above(newRows, B) && tagged(newRows, "TableRow") && newRow != nil && above(newRow, B) && above(newRow.Cells, B) && tagged(newRow.Cells, "TableCell")
-//@   invariant forall t *Table :: !isElem(t) && t != table ==> t.Rows == old(t.Rows)
-//@   invariant forall r *TableRow :: !isElem(r) && allocated(r) ==> r.Cells == old(r.Cells)
-//@   invariant forall p *Paragraph :: !isElem(p) && allocated(p) ==> p.Runs == old(p.Runs)
+//@   invariant (forall t *Table :: !isElem(t) && t != table ==> t.Rows == old(t.Rows)) && (forall r *TableRow :: !isElem(r) && allocated(r) ==> r.Cells == old(r.Cells)) && (forall p *Paragraph :: !isElem(p) && allocated(p) ==> p.Runs == old(p.Runs))
 //@ loop 13
-//@   invariant unchangedExcept("Table.Rows", "TableRow.*", "Paragraph.Runs")
-//@   invariant unchangedBelow(B)
+//@   invariant unchangedExcept("Table.Rows", "TableRow.*", "Paragraph.Runs") && unchangedBelow(B)
 //@   invariant closedRows(B)
 //@   invariant closedCells(B)
 //@   invariant closedTables(B)
 //@   invariant table != nil && above(table, B) && above(newRows, B) && tagged(newRows, "TableRow") && newRow != nil && above(newRow, B) && above(newRow.Cells, B) && tagged(newRow.Cells, "TableCell")
-//@   invariant forall t *Table :: !isElem(t) && t != table ==> t.Rows == old(t.Rows)
-//@   invariant forall r *TableRow :: !isElem(r) && allocated(r) ==> r.Cells == old(r.Cells)
-//@   invariant forall p *Paragraph :: !isElem(p) && allocated(p) ==> p.Runs == old(p.Runs)
+//@   invariant (forall t *Table :: !isElem(t) && t != table ==> t.Rows == old(t.Rows)) && (forall r *TableRow :: !isElem(r) && allocated(r) ==> r.Cells == old(r.Cells)) && (forall p *Paragraph :: !isElem(p) && allocated(p) ==> p.Runs == old(p.Runs))
 
 // ---- document level -------------------------------------------------------------------------------------
 // elemOwned / docOwned: the document object, its body, the element list and the part map lie at or above b; so
